@@ -18,6 +18,7 @@ def tyOf (tok : String) : Option Ty :=
   | "s16b" => some ⟨.strct, 16, 40, false, 0⟩ | "s24" => some ⟨.strct, 24, 41, false, 0⟩ | "a12" => some ⟨.array, 12, 42, false, 0⟩
   | "map" => some ⟨.map, 8, 43, false, 0⟩ | "ch" => some ⟨.chan, 8, 44, false, 0⟩
   | "ictx" => some ⟨.ptr, 8, idMockerICtx, false, 0⟩
+  | "fn" => some ⟨.func, 8, 48, false, 0⟩
   | "dup" => some ⟨.strct, 16, 45, false, 0⟩ | "dupl" => some ⟨.strct, 4, 46, false, 0⟩ | "dupp" => some ⟨.strct, 1, 47, false, 0⟩
   | _ => none
 
@@ -60,11 +61,17 @@ def clsName : Cls → String
   | .ictxReturn => "ictx-return" | .ifaceNoAs => "iface-no-as" | .nameEmpty => "name-empty" | .funcDefEmpty => "funcdef-empty"
   | .targetKind => "target-kind" | .replKind => "repl-kind" | .inCount => "in-count" | .inType => "in-type"
 
+/-- what `erro.CauseBy` answers for the Traceable nodes of the walk (`k/n`) and for an unrelated Traceable (`,x`) -/
+def cbyStr (chain : List ErrT) : String :=
+  match chain with
+  | [.str] | [.reflect] | [.runtime] => "-"
+  | _ => let n := leadingTraceable chain; s!"{n}/{n},0"
+
 def resStr : R Unit → String
-  | .ok _ => "ok chain=- walk=-"
+  | .ok _ => "ok chain=- walk=- cby=-"
   | .error r =>
     let w := match walk r.chain with | some e => errName e | none => "-"
-    s!"rej:{clsName r.cls} chain={String.intercalate ">" (r.chain.map errName)} walk={w}"
+    s!"rej:{clsName r.cls} chain={String.intercalate ">" (r.chain.map errName)} walk={w} cby={cbyStr r.chain}"
 
 def behName : Beh → String | .orig => "orig" | .cb => "cb" | .stub => "stub" | .nomatch => "nomatch"
 
@@ -94,12 +101,13 @@ def originOf (s : String) : Option OriginV :=
   | "none" => some .none
   | "ok" => some (.ptrFunc ⟨1, 64, 30⟩)
   | "small" => some (.ptrFunc ⟨2, 32, 30⟩)
+  | "fnval" => some (.funcVal ⟨3, 64, 30⟩)
   | "int" => some (.value .int)
   | "str" => some (.value .str)
   | "pint" => some (.ptrTo .int)
   | _ => none
 
-def trampId : OriginV → Option Nat | .ptrFunc tr => some tr.id | _ => none
+def trampId : OriginV → Option Nat | .ptrFunc tr => some tr.id | .funcVal tr => some tr.id | _ => none
 
 def tgtId (name : String) : Option Nat := (name.drop 1).toNat?
 
@@ -130,15 +138,20 @@ def hitOf (args : String) (ins : List String) : Bool :=
   let a := list? args
   a.length = ins.length && (a.zip ins).all (fun (x, y) => x = "any()" || x = y)
 
-def groups? (s : String) (ins : List String) : Option (List (List V × Bool)) :=
-  (s.splitOn "|").mapM (fun g => (vlist? g).map (fun v => (v, hitOf g ins)))
+def groups? (s : String) (ins : List String) : Option (List (InArg × Bool)) :=
+  (s.splitOn "|").mapM (fun g => (vlist? g).map (fun v =>
+    match v with
+    | [one] => (InArg.bare one, hitOf g ins)     -- the probe hands a one-token group over bare
+    | _ => (InArg.list v, hitOf g ins)))
 
 def pairs? (s : String) (ins : List String) : Option (List (List V × Bool × List V)) :=
   (s.splitOn "|").mapM (fun p => match p.splitOn "=" with
     | [a, r] => do let av ← vlist? a; let rv ← vlist? r; pure (av, hitOf a ins, rv)
     | _ => none)
 
-def step? (ins : List String) : List String → Option Step
+def step? (ins : List String) (holderHas : Bool := true) : List String → Option Step
+  | ["holder"] => some (.holder holderHas)
+  | ["returns", "()"] => some (.returns [])
   | ["apply", ci, co, cv] => (sig? ci co cv).map (fun s => .apply (.fn s))
   | ["return", vs] => (vals? vs).map .ret
   | ["when", as] => (vals? as).map (fun a => .when_ a (hitOf as ins))
@@ -152,7 +165,8 @@ def step? (ins : List String) : List String → Option Step
   | ["as", ci, co] => (sig? ci co "0").map .asFn
   | _ => none
 
-def steps? (ins : List String) (toks : List String) : Option (List Step) := (splitSemi toks).mapM (step? ins)
+def steps? (ins : List String) (toks : List String) (holderHas : Bool := true) : Option (List Step) :=
+  (splitSemi toks).mapM (step? ins holderHas)
 
 def behIface (s : IS) : String :=
   if !s.set then "nil" else match s.imp with
@@ -169,10 +183,14 @@ def methStr (s : IS) (name names : String) : String :=
   if !s.set then "nil" else
   String.intercalate "," ((list? names).map (fun n => if n = name then s!"{n}:{behIface s}" else s!"{n}:unimpl"))
 
+/-- the parameter tokens a matching condition list has for the probe's call: a variadic call passes ONE element (`[]int{7}`) -/
+def hitIns (ins : List String) (var : String) : List String :=
+  if var = "1" then ins.dropLast ++ ["int"] else ins
+
 def handleSeq (toks : List String) : Option String :=
   match toks with
   | "c13" :: "seqf" :: tgt :: ins :: outs :: var :: pre :: st =>
-    match tgtId tgt, sig? ins outs var, steps? (list? ins) st with
+    match tgtId tgt, sig? ins outs var, steps? (hitIns (list? ins) var) st with
     | some t, some s, some steps =>
       let g0 := if pre = "1" then preState t else G.init
       let b0 : Beh := if pre = "1" then .cb else .orig
@@ -181,20 +199,21 @@ def handleSeq (toks : List String) : Option String :=
       some s!"{resStr r} step={i} before={behName (behOf b0 a)} diff={diffStr a.g b.g t none acc} beh={behName (behOf b0 b)} reg={regName b.g t}"
     | _, _, _ => some "bad-op"
   | "c13" :: "seqm" :: _name :: ins :: outs :: var :: st =>
-    match sig? ins outs var, steps? ((list? ins).drop 1) st with
+    match sig? ins outs var, steps? (hitIns ((list? ins).drop 1) var) st with
     | some s, some steps =>
       let (a, b, r, i) := runSeq { id := 0, sig := s } true 901 ⟨G.init, none, .none⟩ steps 0
       let acc := match r with | .ok _ => true | .error _ => false
       some s!"{resStr r} step={i} before={behName (behOf .orig a)} diff={diffStr a.g b.g 0 none acc} beh={behName (behOf .orig b)} reg={regName b.g 0}"
     | _, _ => some "bad-op"
-  | "c13" :: "seqi" :: name :: names :: mins :: mouts :: ci :: co :: st =>
-    match sig? mins mouts "0", sig? ci co "0", steps? ((list? ci).drop 1) st with
+  | "c13" :: "seqi" :: name0 :: names :: mins :: mouts :: ci :: co :: st =>
+    let name := (name0.splitOn "@").headD name0
+    match sig? mins mouts "0", sig? ci co "0", steps? ((list? ci).drop 1) st (!name0.endsWith "@n") with
     | some m, some fn, some steps =>
-      let (a, b, r, i) := runIfaceSeq m ⟨false, none, .none, fn⟩ steps 0
+      let (a, b, r, i) := runIfaceSeq m ⟨false, none, .none, fn, false⟩ steps 0
       some s!"{resStr r} step={i} before={behIface a} beh={behIface b} var={if b.set then "set" else "nil"} meth={methStr b name names}"
     | _, _, _ => some "bad-op"
   | "c13" :: "rtf" :: tgt :: ins :: outs :: var :: pre :: st =>
-    match tgtId tgt, sig? ins outs var, steps? (list? ins) st with
+    match tgtId tgt, sig? ins outs var, steps? (hitIns (list? ins) var) st with
     | some t, some s, some steps =>
       let g0 := if pre = "1" then preState t else G.init
       let b0 : Beh := if pre = "1" then .cb else .orig
@@ -204,24 +223,69 @@ def handleSeq (toks : List String) : Option String :=
       some s!"{resStr r} trail={trailStr rs} before={behName (behOf b0 a)} diff={diffStr a.g b.g t none acc} beh={behName (behOf b0 b)} reg={regName b.g t}"
     | _, _, _ => some "bad-op"
   | "c13" :: "rtm" :: _name :: ins :: outs :: var :: st =>
-    match sig? ins outs var, steps? ((list? ins).drop 1) st with
+    match sig? ins outs var, steps? (hitIns ((list? ins).drop 1) var) st with
     | some s, some steps =>
       let (a, b, rs) := runAll { id := 0, sig := s } true 901 ⟨G.init, none, .none⟩ steps 0
       let r := rs.getLast?.getD (pure ())
       let acc := match r with | .ok _ => true | .error _ => false
       some s!"{resStr r} trail={trailStr rs} before={behName (behOf .orig a)} diff={diffStr a.g b.g 0 none acc} beh={behName (behOf .orig b)} reg={regName b.g 0}"
     | _, _ => some "bad-op"
-  | "c13" :: "rti" :: name :: names :: mins :: mouts :: ci :: co :: st =>
-    match sig? mins mouts "0", sig? ci co "0", steps? ((list? ci).drop 1) st with
+  | "c13" :: "rti" :: name0 :: names :: mins :: mouts :: ci :: co :: st =>
+    let name := (name0.splitOn "@").headD name0
+    match sig? mins mouts "0", sig? ci co "0", steps? ((list? ci).drop 1) st (!name0.endsWith "@n") with
     | some m, some fn, some steps =>
-      let (a, b, rs) := runIfaceAll m ⟨false, none, .none, fn⟩ steps
+      let (a, b, rs) := runIfaceAll m ⟨false, none, .none, fn, false⟩ steps
       let r := rs.getLast?.getD (pure ())
       some s!"{resStr r} trail={trailStr rs} before={behIface a} beh={behIface b} var={if b.set then "set" else "nil"} meth={methStr b name names}"
     | _, _, _ => some "bad-op"
   | _ => none
 
-def handle (toks : List String) : Option String :=
+def handleMore (toks : List String) : Option String :=
+  match toks with
+  | "c13" :: "fm" :: _m :: ins :: outs :: var :: act =>
+    match sig? ins outs var, tyOf "prc", action? act with
+    | some ms, some rc, some a =>
+      let full : Sig := { ms with ins := rc :: ms.ins }
+      let (g1, r, beh) := fmCall G.init { id := 0, sig := full } ms 901 a
+      let acc := match r with | .ok _ => true | .error _ => false
+      let b := match beh with | some x => behName x | none => "skip"
+      some s!"{resStr r} diff={diffStr G.init g1 0 none acc} beh={b} reg={regName g1 0}"
+    | _, _, _ => some "bad-op"
+  | "c13" :: "nonfunc" :: "pfn" :: act =>
+    match sig? "int" "int" "0", action? act with
+    | some s3, some (.apply cb) =>
+      let (_, r) := ptrFuncApply G.init { id := 3, sig := s3 } cb 901
+      match r with
+      | .ok _ => some s!"{resStr r} diff=other regdelta=1"
+      | .error _ => some s!"{resStr r} diff=none regdelta=0"
+    | some _, some _ => some s!"{resStr (nonFuncCall .ptr)} diff=none regdelta=0"
+    | _, _ => some "bad-op"
+  | ["c13", "export", "func", "known", "asapply", ai, ao, av, ci, co] =>
+    match sig? ai ao av, sig? ci co "0" with
+    | some sa, some cb =>
+      let (_, r) := exportAsApply G.init { id := 0, sig := sa } (.fn cb) 901
+      match r with
+      | .ok _ => some s!"{resStr r} diff=other regdelta=1 afterdiff=none"
+      | .error _ => some s!"{resStr r} diff=none regdelta=0 afterdiff=none"
+    | _, _ => some "bad-op"
+  | ["c13", "export", "func", "known", "asreturn", ai, ao, av, vs] =>
+    match sig? ai ao av, vals? vs with
+    | some sa, some v =>
+      let r : R Unit := match createWhen sa none (firstReturnValues v) false with
+        | .error e => .error e
+        | .ok _ => (exportAsApply G.init { id := 0, sig := sa } (.fn sa) 901).2
+      match r with
+      | .ok _ => some s!"{resStr r} diff=other regdelta=1 afterdiff=none"
+      | .error _ => some s!"{resStr r} diff=none regdelta=0 afterdiff=none"
+    | _, _ => some "bad-op"
+  | _ => none
+
+def handle (toks0 : List String) : Option String :=
+  let toks := match toks0 with | "c13" :: "dbg" :: rest => "c13" :: rest | _ => toks0    -- debug mode must change nothing
   match handleSeq toks with
+  | some r => some r
+  | none =>
+  match handleMore toks with
   | some r => some r
   | none =>
   match toks with
